@@ -20,6 +20,9 @@
             configuration is tightened (max_seq_size = 1000)
   POOLCLEAN shared from c14: pooled scratch buffers of the serializer configuration the Writer reuses for every value
             come back empty on every path
+  CODEC     ... a doubling encode loop starts on a buffer that was given a positive length wherever it was empty
+  CONSUMED  ... snappy: the *equal* outcome of position vs length is the one that goes on
+  shared    SLICE / VARINT / FIXEDBUF (c11), FAILED incl. every-ok-counts (c15), SINK/one-block-writer (c16)
 It does NOT decide equality of what is read back nor buffer-boundary arithmetic inside the C libraries.
 """
 import re
